@@ -8,7 +8,7 @@ use crate::sched;
 use crate::util::*;
 use metrics::{Counter, Gauge, Histogram, Key, KeyName, Metadata, Recorder, SharedString, Unit};
 use metrics_util::RecoverableRecorder;
-use std::cell::Cell;
+use std::cell::{Cell, RefCell};
 use std::sync::atomic::{AtomicBool, AtomicUsize, Ordering};
 use std::sync::{Arc, Mutex};
 
@@ -16,6 +16,8 @@ static META: metrics::Metadata<'static> = metrics::Metadata::new("mv", metrics::
 
 thread_local! {
     static REACHED: Cell<bool> = Cell::new(false);
+    /// which Recorder method the wrapped recorder was entered through, with its arguments
+    static ARRIVED: RefCell<Option<String>> = RefCell::new(None);
 }
 
 #[derive(Default)]
@@ -30,7 +32,8 @@ struct Rec {
     sh: Arc<Shared>,
 }
 impl Rec {
-    fn enter(&self) {
+    fn enter(&self, what: String) {
+        ARRIVED.with(|a| *a.borrow_mut() = Some(what));
         if self.sh.finalised.load(Ordering::SeqCst) > 0 {
             self.sh.entered_after_final.store(true, Ordering::SeqCst);
         }
@@ -49,25 +52,25 @@ impl Drop for Rec {
     }
 }
 impl Recorder for Rec {
-    fn describe_counter(&self, _: KeyName, _: Option<Unit>, _: SharedString) {
-        self.enter()
+    fn describe_counter(&self, k: KeyName, u: Option<Unit>, d: SharedString) {
+        self.enter(format!("describe_counter {} {:?} {}", k.as_str(), u, d))
     }
-    fn describe_gauge(&self, _: KeyName, _: Option<Unit>, _: SharedString) {
-        self.enter()
+    fn describe_gauge(&self, k: KeyName, u: Option<Unit>, d: SharedString) {
+        self.enter(format!("describe_gauge {} {:?} {}", k.as_str(), u, d))
     }
-    fn describe_histogram(&self, _: KeyName, _: Option<Unit>, _: SharedString) {
-        self.enter()
+    fn describe_histogram(&self, k: KeyName, u: Option<Unit>, d: SharedString) {
+        self.enter(format!("describe_histogram {} {:?} {}", k.as_str(), u, d))
     }
-    fn register_counter(&self, _: &Key, _: &Metadata<'_>) -> Counter {
-        self.enter();
+    fn register_counter(&self, k: &Key, m: &Metadata<'_>) -> Counter {
+        self.enter(format!("register_counter {} {}", k.name(), m.target()));
         Counter::noop()
     }
-    fn register_gauge(&self, _: &Key, _: &Metadata<'_>) -> Gauge {
-        self.enter();
+    fn register_gauge(&self, k: &Key, m: &Metadata<'_>) -> Gauge {
+        self.enter(format!("register_gauge {} {}", k.name(), m.target()));
         Gauge::noop()
     }
-    fn register_histogram(&self, _: &Key, _: &Metadata<'_>) -> Histogram {
-        self.enter();
+    fn register_histogram(&self, k: &Key, m: &Metadata<'_>) -> Histogram {
+        self.enter(format!("register_histogram {} {}", k.name(), m.target()));
         Histogram::noop()
     }
 }
@@ -100,6 +103,7 @@ struct Outcome {
     busy_at_recovery: bool,
     late: bool,
     final_while_inside: bool,
+    misrouted: Vec<String>,
     run: sched::RunResult,
 }
 
@@ -112,6 +116,7 @@ fn execute(progs: &[Vec<Call>], schedule: &[usize]) -> Outcome {
     let recovered = Arc::new(AtomicBool::new(false));
     let busy = Arc::new(AtomicBool::new(false));
     let lib_final_before_recovery = Arc::new(AtomicUsize::new(0));
+    let misrouted_all: Arc<Mutex<Vec<String>>> = Arc::new(Mutex::new(vec![]));
     let mut bodies: Vec<Box<dyn FnOnce() + Send + 'static>> = vec![];
     for (t, prog) in progs.iter().enumerate() {
         let prog = prog.clone();
@@ -122,24 +127,51 @@ fn execute(progs: &[Vec<Call>], schedule: &[usize]) -> Outcome {
         let recovered = recovered.clone();
         let busy = busy.clone();
         let lfb = lib_final_before_recovery.clone();
+        let misrouted = misrouted_all.clone();
         bodies.push(Box::new(move || {
-            let mut k = 0usize;
+            let mut k = t * 2;
             for c in prog {
                 let r = match c {
                     Call::Emit => {
                         REACHED.with(|r| r.set(false));
+                        ARRIVED.with(|a| *a.borrow_mut() = None);
                         k += 1;
-                        match k % 3 {
+                        // all six forwarded methods in turn, each with its own name / unit / description
+                        let name: &'static str = ["xa", "xb", "xc", "xd", "xe", "xf"][k % 6];
+                        let expect = match k % 6 {
                             0 => {
-                                let _ = wrapped.register_counter(&Key::from_name("x"), &META);
+                                let _ = wrapped.register_counter(&Key::from_name(name), &META);
+                                format!("register_counter {} mv", name)
                             }
-                            1 => wrapped.describe_gauge(KeyName::from_const_str("x"), None, SharedString::const_str("d")),
+                            1 => {
+                                wrapped.describe_gauge(KeyName::from_const_str(name), Some(Unit::Bytes), SharedString::const_str("dg"));
+                                format!("describe_gauge {} {:?} dg", name, Some(Unit::Bytes))
+                            }
+                            2 => {
+                                let _ = wrapped.register_histogram(&Key::from_name(name), &META);
+                                format!("register_histogram {} mv", name)
+                            }
+                            3 => {
+                                wrapped.describe_counter(KeyName::from_const_str(name), None, SharedString::const_str("dc"));
+                                format!("describe_counter {} {:?} dc", name, None::<Unit>)
+                            }
+                            4 => {
+                                let _ = wrapped.register_gauge(&Key::from_name(name), &META);
+                                format!("register_gauge {} mv", name)
+                            }
                             _ => {
-                                let _ = wrapped.register_histogram(&Key::from_name("x"), &META);
+                                wrapped.describe_histogram(KeyName::from_const_str(name), Some(Unit::Seconds), SharedString::const_str("dh"));
+                                format!("describe_histogram {} {:?} dh", name, Some(Unit::Seconds))
                             }
-                        }
+                        };
+                        let arrived = ARRIVED.with(|a| a.borrow_mut().take());
                         if REACHED.with(|r| r.get()) {
-                            "delivered"
+                            if arrived.as_deref() == Some(expect.as_str()) {
+                                "delivered"
+                            } else {
+                                misrouted.lock().unwrap().push(format!("sent [{}] arrived [{}]", expect, arrived.unwrap_or_default()));
+                                "misrouted"
+                            }
                         } else {
                             "ignored"
                         }
@@ -174,6 +206,7 @@ fn execute(progs: &[Vec<Call>], schedule: &[usize]) -> Outcome {
     }
     let run = sched::run(bodies, schedule);
     let res = results.lock().unwrap().clone();
+    let mis = misrouted_all.lock().unwrap().clone();
     Outcome {
         results: res,
         finalised_by_library: sh.finalised.load(Ordering::SeqCst),
@@ -181,6 +214,7 @@ fn execute(progs: &[Vec<Call>], schedule: &[usize]) -> Outcome {
         busy_at_recovery: busy.load(Ordering::SeqCst),
         late: sh.entered_after_final.load(Ordering::SeqCst),
         final_while_inside: sh.final_while_inside.load(Ordering::SeqCst),
+        misrouted: mis,
         run,
     }
 }
@@ -206,6 +240,9 @@ fn oracle(out: &mut Out, progs: &[Vec<Call>], o: &Outcome) {
     }
     if o.busy_at_recovery {
         out.oracle_fail("into_inner returned while an emission was executing inside the recorder", &format!("{:?}", o.run.trace));
+    }
+    if let Some(m) = o.misrouted.first() {
+        out.oracle_fail("an emission through the wrapper reached the wrapped recorder as a different call", m);
     }
     if o.late {
         out.oracle_fail("a call entered the recorder after its finalisation began", &format!("{:?}", o.run.trace));
